@@ -107,7 +107,25 @@ func c11Case(l *lvl, kinds []string, ctx, cfgKind, argKind, cmpKind string) *Cas
 	var body []Stmt
 	var swAV *AVUse
 	var caseVals []*Atom
-	if ctx == "switch" || ctx == "while-switch" {
+	if ctx == "nested-switch-av" || ctx == "nested-switch-var" {
+		// a switch on an autovar command whose first case body holds another
+		// switch (on a second autovar command / on a plain var)
+		swAV = mkAV()
+		v1, v2 := atoms.New(ClsNum, "case", ""), atoms.New(ClsNum, "case", "")
+		w1 := atoms.New(ClsNum, "case", "")
+		caseVals = []*Atom{v1, v2}
+		in1 := atoms.New(ClsPlainCmd, "in", "cmds")
+		inner := &Switch{Cases: []*SwCase{{Value: []Tok{A(w1)}, Body: []Stmt{&Cmd{Name: A(in1)}}}, {Default: true, Body: []Stmt{&Cmd{Name: A(yes)}}}}}
+		if ctx == "nested-switch-av" {
+			inner.AV = mkAV()
+		} else {
+			inner.Operand = []Tok{A(atoms.New(ClsIdent, "var", ""))}
+		}
+		body = []Stmt{&Switch{AV: swAV, Cases: []*SwCase{
+			{Value: []Tok{A(v1)}, Body: []Stmt{inner}},
+			{Value: []Tok{A(v2)}, Body: []Stmt{&Cmd{Name: A(no)}}},
+		}}, &Cmd{Name: A(after)}}
+	} else if ctx == "switch" || ctx == "while-switch" {
 		swAV = mkAV()
 		v1, v2 := atoms.New(ClsNum, "case", ""), atoms.New(ClsNum, "case", "")
 		caseVals = []*Atom{v1, v2}
@@ -190,6 +208,12 @@ func c11Case(l *lvl, kinds []string, ctx, cfgKind, argKind, cmpKind string) *Cas
 					c := *s
 					if s.AV != nil {
 						c.AV = renderedAV(s.AV, sname)
+					}
+					c.Cases = nil
+					for _, sc := range s.Cases {
+						cc := *sc
+						cc.Body = rs(sc.Body)
+						c.Cases = append(c.Cases, &cc)
 					}
 					out = append(out, &c)
 				default:
@@ -379,6 +403,12 @@ func RunC11(env *Env, rep *Report) {
 				continue
 			}
 			cases = append(cases, c11Case(one, []string{"flag"}, "switch", cfg, ak, "eqnum"))
+		}
+	}
+	// nested switches on autovar commands
+	for _, cfg := range []string{"fixed", "pos0"} {
+		for _, ctx := range []string{"nested-switch-av", "nested-switch-var"} {
+			cases = append(cases, c11Case(one, []string{"flag"}, ctx, cfg, "two", "eqnum"))
 		}
 	}
 	rep.Technique = "symbolic execution of the real autovar parsing and emission (go/ssa) + SMT-discharged bisimulation in which evaluating an autovar leaf is an event followed by the comparison of the configured var"
